@@ -5,6 +5,7 @@ set -e
 cd "$(dirname "$0")"
 export PYTHONHASHSEED=0 PYTHONDONTWRITEBYTECODE=1
 PYRO5_TREE="${PYRO5_TREE:-/repo}" /venv/bin/python tools/gen/gen.py || echo "gen: some tables failed (reported by the checks)"
+/venv/bin/python tools/mkproject.py > /dev/null
 cd coq
 coq_makefile -f _CoqProject -o Makefile > /dev/null
 timeout 3000 make -j16 2>&1 | tail -40
